@@ -171,7 +171,7 @@ Proof.
         -- eapply (cm_fun _ _ C); eassumption.
       * intros q0 E. inversion E; subst. cbn [ex_q_mid ex_q_tok]. split; [left; reflexivity |].
         intros Hs. apply Hfresh. apply (cm_stop _ _ C). exact Hs.
-      * apply (cm_lack _ _ C).
+      * destruct (mid =? ex_c_lack c); [left; reflexivity | apply (cm_lack _ _ C)].
       * apply (cm_lcon _ _ C).
       * apply (cm_last _ _ C).
       * apply (cm_done _ _ C).
